@@ -171,7 +171,9 @@ LandsOK(s,F,k,e) ==
 \* a lapped seek may answer OV_EOF without lapping only when there is nothing to lap
 LinkEnds(F) == { F.links[i].start + F.links[i].N : i \in 1..F.nl }
 LapEofAllowed(s,F,k,e) ==
-  \/ (e.rs0 < INITSET /\ s.pos \in LinkEnds(F) /\ e.tell = s.pos)                \* no decode state and at the end of a (logical) stream
+  \/ (e.rs0 < STREAMSET /\ e.tell = s.pos /\ s.pos = F.total)                      \* no decode state, no link, and at the end of the whole stream
+  \/ (e.rs0 = STREAMSET /\ e.tell = s.pos /\ "cur0" \in DOMAIN e /\ e.cur0 + 1 \in 1..F.nl
+      /\ s.pos = F.links[e.cur0 + 1].start + F.links[e.cur0 + 1].N)               \* no decode state and at the end of the (logical) stream the handle is in - the same position is the START of the next link, where there is plenty to lap
   \/ (e.rs0 < INITSET /\ s.pos < 0 /\ "off0" \in DOMAIN e /\ e.off0 >= F.len)     \* no decode state, position unknown (after a failed seek), byte cursor at the end of the physical stream
   \/ (e.tell \in LinkEnds(F) /\ LandsOK(s,F,k,e))                                 \* sought, and no audio follows the target in its link
 
